@@ -137,6 +137,19 @@ def run(tier, seed):
         tot_drift += nd
         total += len(ub)
         cov["generation"].append({"config": "simulation (<=4 statements, <=3 comments)", "replayed": len(ub), "mismatches": nb})
+    # ---- strict mode: comments do not turn supported DDL into an error (silent=False must return what silent=True returns) --------------------
+    sup_kinds = {"table", "tablens", "seq", "set", "alter", "serde", "alter_rn"}
+    sb = [b for b in locals().get("behs", []) if not F.spec_tags(b, seed) and all(s_["k"] in sup_kinds for s_ in b["stmts"])]
+    sb = rnd.sample(sb, min(len(sb), 3000 if thorough else 700))
+    st_tasks = [(A.render(b, b["stmts"], seed), c_, {}) for b in sb for c_ in ({}, {"silent": False})]
+    st_outs, _ = C.parse_many(st_tasks)
+    for i_, b in enumerate(sb):
+        a_, s_ = st_outs[2 * i_], st_outs[2 * i_ + 1]
+        if a_[0] == "ok" and s_ != a_:
+            V.mismatch({"what": "strict mode (silent=False) on a commented script of supported statements", "ddl": st_tasks[2 * i_][0], "paths": ["strict_mode"],
+                        "expected": A.expected_entities(b, b["stmts"]), "observed": s_[:3] if s_[0] != "ok" else "another result"}, paths=["strict_mode"])
+    total += len(sb)
+    cov["strict_mode_scripts"] = len(sb)
     # ---- the file entry point reads the same comments the same way -------------------------------------------------------------
     fb = [b for cfgb in [locals().get("behs", [])] for b in cfgb if not F.spec_tags(b, seed)]
     fb = rnd.sample(fb, min(len(fb), 1500 if thorough else 300))
